@@ -213,58 +213,84 @@ func c12(c *Ctx) {
 
 	c.Rule("R5", "E3 dominance", "drop aggregation and de-duplication: a nil measure is never appended or registered; a measure whose aggregator id was already seen is not appended twice", 4)
 	if fn := c.Fn(mx, "R5", "(*inserter).Instrument"); fn != nil {
-		g := mx.FG(fn)
-		apps := g.Match(func(n ast.Node) bool {
-			as, ok := n.(*ast.AssignStmt)
-			if !ok || len(as.Rhs) != 1 {
-				return false
+		// every append of a measure function in the inserter's methods (Instrument and the helpers it may be split into)
+		isMeasure := func(t types.Type) bool {
+			n := namedOf(t)
+			return n != nil && n.Obj().Name() == "Measure" && n.Obj().Pkg() != nil && n.Obj().Pkg().Path() == aggPkg
+		}
+		type appSite struct {
+			f *FuncInfo
+			g *FG
+			x *GNode
+		}
+		var apps []appSite
+		for _, f := range sortedFuncs(mx.Funcs) {
+			if f.Recv() == nil || !typeIs(f.Recv().Type(), sdkMetric, "inserter") {
+				continue
 			}
-			call, ok := unparen(as.Rhs[0]).(*ast.CallExpr)
-			return ok && builtinName(minfo, call) == "append" && len(call.Args) == 2 && !call.Ellipsis.IsValid()
-		})
-		for i, x := range apps {
-			call := unparen(x.N.(*ast.AssignStmt).Rhs[0]).(*ast.CallExpr)
+			g := mx.FG(f)
+			for _, x := range g.Match(func(n ast.Node) bool {
+				as, ok := n.(*ast.AssignStmt)
+				if !ok || len(as.Rhs) != 1 {
+					return false
+				}
+				call, ok := unparen(as.Rhs[0]).(*ast.CallExpr)
+				if !ok || builtinName(minfo, call) != "append" || len(call.Args) != 2 || call.Ellipsis.IsValid() {
+					return false
+				}
+				tv, has := minfo.Types[call.Args[1]]
+				return has && isMeasure(tv.Type)
+			}) {
+				apps = append(apps, appSite{f, g, x})
+			}
+		}
+		cnt := map[string]int{}
+		nLoop := 0
+		for _, a := range apps {
+			call := unparen(a.x.N.(*ast.AssignStmt).Rhs[0]).(*ast.CallExpr)
 			in := objOf(minfo, call.Args[1])
-			ok, why := g.DominatedByEdges(x, func(e *GEdge) bool {
+			cnt[a.f.Name]++
+			ok, why := a.g.DominatedByEdges(a.x, func(e *GEdge) bool {
 				return edgeImplies(e, func(cnd ast.Expr, pol int) bool {
 					nn, good := nilCmp(minfo, cnd, pol, func(y ast.Expr) bool { return in != nil && sameVar(minfo, y, in) })
 					return good && nn
 				})
 			})
-			c.Check(ok, "R5", "sdk/metric|(*inserter).Instrument|append #"+itoa(i+1)+" dominated by in != nil", at(mx.M, x.N.Pos()), "dropped streams add no measure", "a nil measure function is appended and later called: "+why)
-		}
-		if len(apps) < 2 {
-			c.Violation("R5", "sdk/metric|(*inserter).Instrument|appends", at(mx.M, fn.Pos()), "expected the view-loop append and the default-stream append")
-		}
-		// dedupe in the view loop: the first append is dominated by the not-seen edge
-		var seenOK types.Object
-		inspectNoLit(fn.Body(), func(n ast.Node) bool {
-			if as, ok := n.(*ast.AssignStmt); ok && len(as.Lhs) == 2 && len(as.Rhs) == 1 {
-				if ie, ok := unparen(as.Rhs[0]).(*ast.IndexExpr); ok {
-					if v, ok := objOf(minfo, ie.X).(*types.Var); ok && v.Name() == "seen" {
-						seenOK = objOf(minfo, as.Lhs[1])
+			c.Check(ok, "R5", "sdk/metric|"+a.f.Name+"|append #"+itoa(cnt[a.f.Name])+" dominated by in != nil", at(mx.M, a.x.N.Pos()), "dropped streams add no measure", "a nil measure function is appended and later called: "+why)
+			if !a.g.InCycle(a.x) {
+				continue
+			}
+			// inside the view loop: dominated by "this aggregator id was not seen before" — the false outcome of a comma-ok look-up in
+			// a local set that the id is added to
+			nLoop++
+			notSeen := map[types.Object]bool{}
+			inspectNoLit(a.f.Body(), func(n ast.Node) bool {
+				if as, ok := n.(*ast.AssignStmt); ok && len(as.Lhs) == 2 && len(as.Rhs) == 1 {
+					if ie, ok := unparen(as.Rhs[0]).(*ast.IndexExpr); ok {
+						if tv, has := minfo.Types[ie.X]; has {
+							if _, isMap := tv.Type.Underlying().(*types.Map); isMap {
+								if v, ok := objOf(minfo, ie.X).(*types.Var); ok && !v.IsField() {
+									if o := objOf(minfo, as.Lhs[1]); o != nil {
+										notSeen[o] = true
+									}
+								}
+							}
+						}
 					}
 				}
-			}
-			return true
-		})
-		if len(apps) > 0 && seenOK != nil {
-			var loopApp *GNode
-			for _, x := range apps {
-				if g.InCycle(x) {
-					loopApp = x
-				}
-			}
-			good := loopApp != nil
-			if good {
-				good, _ = g.DominatedByEdges(loopApp, func(e *GEdge) bool {
-					return edgeImplies(e, func(cnd ast.Expr, pol int) bool { return pol < 0 && sameVar(minfo, cnd, seenOK) })
+				return true
+			})
+			good, _ := a.g.DominatedByEdges(a.x, func(e *GEdge) bool {
+				return edgeImplies(e, func(cnd ast.Expr, pol int) bool {
+					id, ok := cnd.(*ast.Ident)
+					return ok && pol < 0 && notSeen[minfo.Uses[id]]
 				})
-			}
-			c.Check(good, "R5", "sdk/metric|(*inserter).Instrument|view-loop append dominated by the id-not-seen test", at(mx.M, fn.Pos()), "one measure per distinct aggregator",
-				"two views resolving to the same aggregator make every measurement count twice")
-		} else {
-			c.Violation("R5", "sdk/metric|(*inserter).Instrument|view-loop append dominated by the id-not-seen test", at(mx.M, fn.Pos()), "seen-set test not found")
+			})
+			c.Check(good, "R5", "sdk/metric|"+a.f.Name+"|view-loop append dominated by the id-not-seen test", at(mx.M, a.x.N.Pos()), "one measure per distinct aggregator",
+				"two views resolving to the same aggregator make every measurement count twice (no membership test on a set of aggregator ids guards the append)")
+		}
+		if len(apps) < 2 || nLoop < 1 {
+			c.Violation("R5", "sdk/metric|(*inserter).Instrument|appends", at(mx.M, fn.Pos()), "expected the view-loop append and the default-stream append in the inserter's methods, found "+itoa(len(apps))+" ("+itoa(nLoop)+" in a loop)")
 		}
 	}
 	if fn := c.Fn(mx, "R5", "(*inserter).cachedAggregator"); fn != nil {
@@ -276,7 +302,14 @@ func c12(c *Ctx) {
 			x := g.NodeOf(s.N)
 			ok, why := g.DominatedByEdges(x, func(e *GEdge) bool {
 				return edgeImplies(e, func(cnd ast.Expr, pol int) bool {
-					nn, good := nilCmp(minfo, cnd, pol, func(y ast.Expr) bool { v, ok := objOf(minfo, y).(*types.Var); return ok && v.Name() == "in" })
+					nn, good := nilCmp(minfo, cnd, pol, func(y ast.Expr) bool {
+						tv, has := minfo.Types[y]
+						if !has {
+							return false
+						}
+						n := namedOf(tv.Type)
+						return n != nil && n.Obj().Name() == "Measure" && n.Obj().Pkg() != nil && n.Obj().Pkg().Path() == aggPkg
+					})
 					return good && nn
 				})
 			})
